@@ -324,20 +324,47 @@ func (s Shape3) RefContains(p kit.V3) bool { return s.RefSDF(p).SDF >= 0 }
 // ---------------------------------------------------------------------------
 // generators
 
-// F draws a float in [lo, hi] (finite, no NaN).
+// F draws a float uniformly from [lo, hi].
+//
+// rapid's own numeric generators are NOT used directly: Float64Range and IntRange are heavily biased towards
+// tiny magnitudes (about half of the Float64Range draws from [-0.4, 1.4] are non-zero numbers below 1e-6),
+// which concentrates "random" points on the origin and the coordinate planes, makes almost every generated
+// configuration degenerate, and produces subnormal differences that say nothing about the library.  Instead a
+// (biased) 64-bit integer is drawn from rapid and scrambled by a fixed bijective hash, which gives uniform,
+// generic values; rapid still owns all randomness, so shrinking and replay work, and shrinking cannot push
+// coordinates towards degenerate round numbers.  Special values (0, axis-aligned directions, equal
+// coordinates) are generated explicitly by the generators that want them.
 func F(t *rapid.T, lo, hi float64, label string) float64 {
-	v := rapid.Float64Range(lo, hi).Draw(t, label)
-	// rapid's shrinker likes values such as 5e-147; differences of such numbers are subnormal and lose all
-	// precision when normalised, which says nothing about the library: flush them to zero
-	if m := math.Max(math.Abs(lo), math.Abs(hi)); math.Abs(v) < 1e-12*m {
-		return 0
+	if !(hi > lo) {
+		return lo
 	}
-	return v
+	return lo + (hi-lo)*U01(t, label)
+}
+
+// U01 draws a uniform number in [0, 1) (53 bits).  Two rapid draws and the label are mixed so that the small
+// integers rapid likes to repeat (0, 1, 2...) do not make different coordinates equal.
+func U01(t *rapid.T, label string) float64 {
+	z := rapid.Uint64().Draw(t, label)
+	z2 := rapid.Uint64().Draw(t, label+"'")
+	h := uint64(14695981039346656037)
+	for i := 0; i < len(label); i++ {
+		h = (h ^ uint64(label[i])) * 1099511628211
+	}
+	z = z + 0x9e3779b97f4a7c15 + (z2<<32 | z2>>32)*0xd6e8feb86659fd93 + h
+	z = (z ^ (z >> 30)) * 0xbf58476d1ce4e5b9
+	z = (z ^ (z >> 27)) * 0x94d049bb133111eb
+	z ^= z >> 31
+	return float64(z>>11) / (1 << 53)
+}
+
+// Int draws an integer uniformly from [lo, hi] (rapid.IntRange prefers small magnitudes).
+func Int(t *rapid.T, lo, hi int, label string) int {
+	return lo + int(U01(t, label)*float64(hi-lo+1))
 }
 
 // LogF draws a float whose logarithm is uniform in [log lo, log hi].
 func LogF(t *rapid.T, lo, hi float64, label string) float64 {
-	return math.Exp(rapid.Float64Range(math.Log(lo), math.Log(hi)).Draw(t, label))
+	return math.Exp(F(t, math.Log(lo), math.Log(hi), label))
 }
 
 // Vec3 draws a vector with components in [-m, m].
